@@ -629,11 +629,14 @@ class Program:
                 self.consts.setdefault(k["key"], k)
         self._callers = None
 
-    def body(self, key):
-        return self.bodies.get(key)
+    def body(self, key, raw=False):
+        if raw or key not in self.bodies:
+            return self.bodies.get(key)
+        from .inline import inlined_body
+        return inlined_body(self, key)
 
-    def must_body(self, key):
-        b = self.bodies.get(key)
+    def must_body(self, key, raw=False):
+        b = self.body(key, raw)
         if b is None:
             raise AnchorMissing("body `%s` not found in the analysed program" % key)
         return b
